@@ -527,6 +527,9 @@ def oracle_C04(lhs, o, t):
     return None
 
 def proj_C05(lhs, o, t):
+    if lhs[0] == "O":
+        p = probe_fields(o.get("p"))
+        return (p["z"] if p and p["ok"] else None,)
     if lhs[0] in "EFA":
         p = probe_fields(o.get("p")); p2 = probe_fields(o.get("p2"))
         return (p["z"] if p and p["ok"] else None, p2["z"] if p2 and p2["ok"] else None)
@@ -534,6 +537,15 @@ def proj_C05(lhs, o, t):
         return (o.get("z"), o.get("rm"))
     return ()
 def oracle_C05(lhs, o, t):
+    if lhs[0] == "O":
+        # after every operation of a history: size() within the value's bytes, a multiple of ALIGN, and the first size() bytes alone
+        # validate and map to the same content
+        if "SIZE-PREFIX-DIFF" in o.get("raw_tail", ""): return "after the operation the first size() bytes do not validate and map to the same content with the same size()"
+        p = probe_fields(o.get("p"))
+        if p and p["ok"]:
+            if p["z"] > p["v"]: return f"after the operation size() = {p['z']} exceeds the value's own {p['v']} bytes"
+            if p["z"] % t["align"] != 0: return f"after the operation size() = {p['z']} is not a multiple of ALIGN {t['align']}"
+        return None
     if lhs[0] in "EFA":
         n = hexlen(lhs.split(" ")[-1])
         for key in ("p", "p2"):
@@ -793,6 +805,7 @@ def oracle_seq(lhs, o, t):
     if not f or not f["ok"]: return f"the bytes do not validate / re-map after the operation: {o.get('p')}"
     if content_of(o.get("p")) != o.get("abs"): return f"content {content_of(o.get('p'))} differs from the abstract sequence {o.get('abs')}"
     if "!OVER" in f["w"]: return "len > capacity"
+    if "SIZE-PREFIX-DIFF" in o.get("raw_tail", ""): return "the first size() bytes of the value do not validate and map to the same content with the same size() after the operation"
     if "REMAP-DIFF" in o.get("raw_tail", ""): return "the value's own bytes (as_bytes()) do not validate and re-map to the same state (extent, size(), content, capacity)"
     return None
 def proj_C11(lhs, o, t):
@@ -1184,9 +1197,9 @@ def post_witness(prop):
 
 PROPS = {
     "C01": dict(module="FV.Props.C01", theorems=["FV.Props.C01_validate_total", "FV.Props.C01_from_bytes_total"], suites=["bytes"], proj=proj_C01, oracle=oracle_C01),
-    "C02": dict(module="FV.Props.C02Accept", theorems=["FV.Props.C02_view_within", "FV.Props.C02_truncation_validates", "FV.Props.C02_deep_read_total", "FV.Props.C02_gate", "FV.Props.C02_fields_accept_iff", "FV.Props.C02_vec_accepts_iff", "FV.Props.C02_str_accepts_iff", "FV.Props.C02_enum_accepts_iff", "FV.Props.C02_flex_accepts_iff", "FV.Props.C02_own_bytes_validate", "FV.Ty.sizeView"], suites=["bytes"], proj=proj_C02, oracle=oracle_C02),
+    "C02": dict(module="FV.Props.C02Accept", theorems=["FV.Props.C02_view_within", "FV.Props.C02_truncation_validates", "FV.Props.C02_deep_read_total", "FV.Props.C02_content_consistent", "FV.Props.C02_gate", "FV.Props.C02_fields_accept_iff", "FV.Props.C02_vec_accepts_iff", "FV.Props.C02_str_accepts_iff", "FV.Props.C02_enum_accepts_iff", "FV.Props.C02_flex_accepts_iff", "FV.Props.C02_own_bytes_validate", "FV.Ty.sizeView"], suites=["bytes"], proj=proj_C02, oracle=oracle_C02),
     "C04": dict(module="FV.Props.C04", theorems=["FV.Props.C04_view_fits", "FV.Props.C04_ceil_least", "FV.Props.C04_floor_greatest", "FV.Props.C04_positions_eq_c", "FV.Props.C04_struct_size_eq_c", "FV.Props.C04_enum_data_offset_eq_c", "FV.Props.C04_vec_data_offset_eq_c"], suites=["bytes"], proj=proj_C04, oracle=oracle_C04),
-    "C05": dict(module="FV.Props.C05", theorems=["FV.Props.C05_size_exact", "FV.Props.C05_truncation_same_content"], suites=["bytes", "emplace"], proj=proj_C05, oracle=oracle_C05),
+    "C05": dict(module="FV.Props.C05", theorems=["FV.Props.C05_size_exact", "FV.Props.C05_truncation_same_content"], suites=["bytes", "emplace", "ops"], proj=proj_C05, oracle=oracle_C05),
     "C03": dict(module="FV.Props.C03Full", theorems=["FV.Props.C03_emplace_reads_back", "FV.Props.C03_portable_image_is_serialisation", "FV.Props.C03_emplace_validates_partial", "FV.Props.C03_large_enough_is_accepted", "FV.Props.C03_struct_fields_at_c_offsets", "FV.Props.C03_assign_reads_back", "FV.Props.C03_enum_tag_and_fields_at_c_offsets", "FV.Props.C03_enum_unsized_variant_image", "FV.Props.C03_vec_from_iterator", "FV.emplaceU_ok", "FV.emplaceU_content", "FV.emplaceU_acc", "FV.repB_iff", "FV.flexFill_spec", "FV.flexFill_content"], suites=["emplace"], proj=proj_C03, oracle=oracle_C03),
     "C15": dict(module="FV.Props.C15", theorems=["FV.Props.C15_emplace_total", "FV.Props.C15_accepts_iff_fits", "FV.Props.C15_vec_accepts_iff_fits", "FV.emplaceU_acc", "FV.flexFill_acc", "FV.repB_iff"], suites=["emplace"], proj=proj_C15, oracle=oracle_C15, post=post_C15),
     "C18": dict(module="FV.Props.C18", theorems=["FV.Props.C18_vec_from_iterator_partial", "FV.Props.C18_flex_from_iterator_partial", "FV.Props.C18_nested_enum_counterexample", "FV.Props.C18_failed_assign_leaves_valid", "FV.emplaceU_gsafe", "FV.emplaceU_assign_valid", "FV.own_bytes_validate"], suites=["emplace"], proj=proj_C18, oracle=oracle_C18),
